@@ -26,6 +26,26 @@ PROBES = [
      "kwargs": {}, "env": {}},
     {"api": "run", "script": "P_r <- P_1 / 0;", "structures": PROBE_STRUCT, "data": PROBE_DATA, "kwargs": {}, "env": {}},
     {"api": "semantic_analysis", "script": "P_r <- P_1 + P_9;", "structures": PROBE_STRUCT, "kwargs": {}, "env": {}},
+    # probes that read the pieces of process-global state a run configures: period representation,
+    # viral propagation rules, number formatting of written files, virtual-name counters in messages
+    {"api": "run", "script": 'P_s <- cast(cast("2020Q1", time_period), string); P_r <- P_2[calc Me_s := cast(Id_2, string)];',
+     "structures": {"datasets": [{"name": "P_2", "DataStructure": [
+         {"name": "Id_1", "type": "Integer", "role": "Identifier", "nullable": False},
+         {"name": "Id_2", "type": "Time_Period", "role": "Identifier", "nullable": False},
+         {"name": "Me_1", "type": "Number", "role": "Measure", "nullable": True}]}]},
+     "data": {"P_2": {"kind": "df", "columns": ["Id_1", "Id_2", "Me_1"], "rows": [[1, "2020Q1", 1.5], [2, "2021M03", 2.25], [3, "2019A", None]]}},
+     "kwargs": {}, "env": {}},
+    {"api": "run", "script": 'define viral propagation P_vp (variable VAt_1) is when "A" then "Z"; else "D" end viral propagation;\nP_r <- P_3 + P_3; P_g <- sum(P_3 group by Id_1);',
+     "structures": {"datasets": [{"name": "P_3", "DataStructure": [
+         {"name": "Id_1", "type": "Integer", "role": "Identifier", "nullable": False},
+         {"name": "Id_2", "type": "String", "role": "Identifier", "nullable": False},
+         {"name": "Me_1", "type": "Number", "role": "Measure", "nullable": True},
+         {"name": "VAt_1", "type": "String", "role": "Viral Attribute", "nullable": True}]}]},
+     "data": {"P_3": {"kind": "df", "columns": ["Id_1", "Id_2", "Me_1", "VAt_1"], "rows": [[1, "x", 1.0, "A"], [1, "y", 2.0, "B"], [2, "x", 3.0, None]]}},
+     "kwargs": {}, "env": {}},
+    {"api": "run", "script": "P_r <- P_1 / 3; P_t <- P_1[calc Me_2 := Me_1 * 1.123456789123];", "structures": PROBE_STRUCT, "data": PROBE_DATA,
+     "kwargs": {}, "env": {}, "output_folder": True},
+    {"api": "semantic_analysis", "script": "P_a <- if P_1#Me_1 > 1 then P_1 else P_1 * 2; P_b <- P_a[keep Me_77];", "structures": PROBE_STRUCT, "kwargs": {}, "env": {}},
 ]
 
 # operations that fail on their own (no injection needed)
@@ -111,6 +131,8 @@ def phases(reflog):
             ph = "fetch" if state != "load" else "load"
         elif kind == "file_write":
             ph = "fetch"
+        elif kind == "mkdir":
+            ph = "configure" if state in ("configure", "connect") else "fetch"
         elif kind == "create_function":
             ph = "configure"
         out.append((k, kind, ph))
@@ -263,7 +285,7 @@ def judge(op, steps, child, ref_outcome, again_ref, probe_refs, phase_of):
             if d:
                 viols.append(("not-as-if-never-happened", i, "same operation, fault-free, after the failure: " + d, site))
         elif role.startswith("probe:"):
-            d = ops.diff_outcomes(probe_refs[int(role[6:])], oc)
+            d = ops.diff_outcomes(probe_refs[int(role[6:])], oc, compare_messages=True)
             if d:
                 viols.append(("not-as-if-never-happened", i, "%s after the failure: %s" % (role, d), site))
         for name, what in res["ledger"]:
@@ -375,10 +397,17 @@ def _swarm_op(rng, source):
     if out_folder and rng.random() < 0.4:
         kw["output_format"] = "parquet"
     if source[0] == "gen":
+        force_dialect = len(source) > 2 and source[2] == "dialect"
         w = gen.generate(random.Random(source[1]), n_statements=rng.choice([1, 2, 3, 3, 4]),
-                         rows=rng.choice([2, 3, 5]))
+                         rows=rng.choice([2, 3, 5]), carriers=("csv_text",) if force_dialect else ("df", "csv_text", "parquet_df"))
         if w["meta"]["time_period"] and rng.random() < 0.6:
             kw["time_period_output_format"] = rng.choice(["vtl", "sdmx_reporting", "sdmx_gregorian", "natural"])
+        if force_dialect or rng.random() < 0.35:
+            # CSV dialects other than the comma fast path (the loader then sniffs the file through the connection)
+            d = rng.choice([";", "|", "\t"])
+            for spec in w["data"].values():
+                if spec["kind"] == "csv_text" and not any(ch in spec["text"] for ch in ';|\t"'):
+                    spec["text"] = spec["text"].replace(",", d)
         return gen.as_op(w, kwargs=kw, env=env, output_folder=out_folder)
     e = source[1]
     return corpus.as_op(e, kwargs=kw, env=env, output_folder=out_folder)
@@ -391,7 +420,7 @@ def run(ctx):
     n_corpus = 8 if quick else 220
     scen = []
     for i in range(n_gen):
-        scen.append(("gen", rng.randrange(1 << 30)))
+        scen.append(("gen", rng.randrange(1 << 30)) if i % 8 else ("gen", rng.randrange(1 << 30), "dialect"))
     cps = [e for e in corpus.discover() if e["bytes"] < 20000]
     for e in rng.sample(cps, min(n_corpus, len(cps))):
         scen.append(("corpus", e))
@@ -423,8 +452,11 @@ def run(ctx):
         for (k, kind, p) in r["phases"]:
             if kind == "close":
                 continue
-            kinds_of[k] = FILE_KINDS if kind in ("open", "file_write") else CONN_KINDS
-        points = [(k, kd, wh) for k in sorted(kinds_of) for kd in kinds_of[k] for wh in ("instead", "after")]
+            kinds_of[k] = FILE_KINDS if kind in ("open", "file_write", "mkdir") else CONN_KINDS
+        mkdirs = {k for (k, kind, _p) in r["phases"] if kind == "mkdir"}
+        # a directory creation either fails or happens: no "happened, then failed" variant
+        points = [(k, kd, wh) for k in sorted(kinds_of) for kd in kinds_of[k] for wh in ("instead", "after")
+                  if not (k in mkdirs and wh == "after")]
         exhaustive = K <= maxK
         if not exhaustive:
             points = rng.sample(points, min(len(points), 16 * maxK))
